@@ -34,8 +34,10 @@ TReady == /\ IsEv("ready") /\ Consume
 TRecv  == IsEv("recv") /\ Consume /\ wr.st = "got" /\ wr.last = Ev.idx /\ P!WriterAck
 IsPrefixOfInput(o) == \A k \in 1..Len(o) : o[k] = k - 1
 TRet   == /\ IsEv("ret") /\ Consume /\ UNCHANGED pvars
-          /\ (Ev.err <=> main = "retErr")
-          /\ (~Ev.err => main = "retNil" /\ Ev.order = written)      \* an error run's partial output is not judged
+          /\ IF "unknown" \in DOMAIN Ev                                 \* a run whose return value was not observed (the repository's own tests)
+             THEN main \in {"retNil", "retErr"}
+             ELSE /\ (Ev.err <=> main = "retErr")
+                  /\ (~Ev.err => main = "retNil" /\ Ev.order = written)      \* an error run's partial output is not judged
 TPost  == main = "retErr" /\ (IsEv("ready") \/ IsEv("recv")) /\ Consume /\ UNCHANGED pvars
 Silent == /\ UNCHANGED l
           /\ \/ P!ReaderHeader \/ P!ReaderHeaderErr \/ P!ReaderSend \/ P!ReaderErr \/ P!ReaderDone
